@@ -2509,3 +2509,43 @@ M("C05", "simple-dummy-break-no-reattach", PG,
                 dummy_break_event_out_node
             )''', "            pass", "R5.17",
   "what followed the dummy break is cut off")
+
+# ============================================================ waves k / l
+M("C07", "loop-name-from-count", LEM,
+  '''    max_loop_event = 0
+    for event in graph.nodes:
+        if LOOP_EVENT_TYPE in event.event_type:
+            max_loop_event = max(
+                int(event.event_type.split("_")[1]),
+                max_loop_event,
+            )
+    return f"{LOOP_EVENT_TYPE}_{max_loop_event + 1}"''',
+  '''    num_loop_events = sum(
+        1 for event in graph.nodes if LOOP_EVENT_TYPE in event.event_type
+    )
+    return f"{LOOP_EVENT_TYPE}_{num_loop_events + 1}"''', "R7.18",
+  "loop numbered by the count of loop nodes present (seed C07-l)")
+T("C07", "twin-loop-name-max-default", LEM,
+  '''    max_loop_event = 0
+    for event in graph.nodes:
+        if LOOP_EVENT_TYPE in event.event_type:
+            max_loop_event = max(
+                int(event.event_type.split("_")[1]),
+                max_loop_event,
+            )
+    return f"{LOOP_EVENT_TYPE}_{max_loop_event + 1}"''',
+  '''    max_loop_event = max(
+        (
+            int(event.event_type.split("_")[1])
+            for event in graph.nodes
+            if LOOP_EVENT_TYPE in event.event_type
+        ),
+        default=0,
+    )
+    return f"{LOOP_EVENT_TYPE}_{max_loop_event + 1}"''',
+  "max(.., default=0) instead of the accumulate loop")
+MM("C04", "memoised-model-loader", [
+    (EV, "def load_events_from_file(file_path: str) -> tuple[str, dict[str, Event]]:",
+     "@lru_cache(maxsize=None)\ndef load_events_from_file(file_path: str) -> tuple[str, dict[str, Event]]:"),
+    (EV, "from copy import deepcopy\n", "from copy import deepcopy\nfrom functools import lru_cache\n")],
+   "R4.9", "the loaded model is shared between callers and updated in place (seed C04-k)")
